@@ -1,5 +1,6 @@
 (* Extraction of the backend model.  Directives: only those of ExtrOcamlBasic and ExtrOcamlString. *)
 From Coq Require Import Extraction ExtrOcamlBasic ExtrOcamlString.
-From Sylt Require Import Syntax.Resolved Back.IR Back.Emit Back.Scope Back.RScope.
+From Sylt Require Import Syntax.Resolved Back.IR Back.Emit Back.Scope Back.RScope Back.CFlow.
 Extraction Language OCaml.
-Extraction "backmodel.ml" Emit.backend IR.lower Emit.count_usages Scope.ir_scoped Scope.first_unscoped RScope.rs_resolved.
+Extraction "backmodel.ml" Emit.backend IR.lower Emit.count_usages Scope.ir_scoped Scope.first_unscoped RScope.rs_resolved
+  CFlow.ir_cf_ok CFlow.first_cf_bad CFlow.loops_ok.
